@@ -34,7 +34,9 @@ func (p *Program) apiVersions(which string) []apiVer {
 func (p *Program) genItems(g *GenSpec, tier string) [][]int {
 	keys := g.QuickKeys
 	extra := g.QuickExtra
+	nonflex := g.QuickExtraNonFlex
 	if tier == "thorough" {
+		nonflex = g.ThoroughExtraNonFlex
 		keys = g.ThoroughKeys
 		if g.ThoroughExtra != nil {
 			extra = g.ThoroughExtra
@@ -58,6 +60,11 @@ func (p *Program) genItems(g *GenSpec, tier string) [][]int {
 		for _, e := range extra {
 			it := append([]int{av.Key, av.Version}, e...)
 			items = append(items, it)
+		}
+		if !av.Flexible {
+			for _, e := range nonflex {
+				items = append(items, append([]int{av.Key, av.Version}, e...))
+			}
 		}
 	}
 	return items
